@@ -14,7 +14,10 @@ NAME_PARTS = ["Topic", "Partition", "Id", "ISR", "Replicas", "Epoch", "Leader", 
               "Min", "Bytes", "Offset", "Group", "Member", "Host", "Port", "Rack", "Config", "Value", "Key", "Is", "Internal",
               "Q", "ID", "Acks", "Len", "Hash", "Format", "Filter", "Range", "Str", "Count", "Index", "State", "Features"]
 SPECIAL = [("ErrorCode", "int16"), ("PartitionErrorCode", "int16"), ("ThrottleTimeMs", "int32"), ("SessionLifetimeMs", "int64"),
-           ("MaxTimestampMs", "int64"), ("TimeoutMs", "int32"), ("RetentionTimeMs", "int64"), ("LogAppendTimeMs", "int64")]
+           ("MaxTimestampMs", "int64"), ("TimeoutMs", "int32"), ("RetentionTimeMs", "int64"), ("LogAppendTimeMs", "int64"),
+           # the definition, not the name, decides the width of a duration: the same names with the other width
+           ("ThrottleTimeMs", "int64"), ("TimeoutMs", "int64"), ("SessionLifetimeMs", "int32"), ("RetentionTimeMs", "int32"),
+           ("MaxWaitMs", "int32"), ("MaxWaitMs", "int64"), ("RebalanceTimeoutMs", "int64"), ("MaxLifetimeMs", "int32")]
 ENTITY_TYPES = [("brokerId", "int32"), ("topicName", "string"), ("groupId", "string"), ("producerId", "int64"),
                 ("transactionalId", "string")]
 
@@ -310,6 +313,14 @@ def systematic():
                 if ign:
                     f["ignorable"] = True
                 df.append(f)
+    # the two API keys with special header rules, in every flexibility pattern (flexible from version 0, from a later
+    # version, never): ControlledShutdown v0 keeps request header v0, ApiVersions responses keep response header v0
+    for key, stem in ((7, "SysKeySeven"), (18, "SysKeyEighteen")):
+        for j, flexv in enumerate(("0+", "1+", "none")):
+            for ty in ("request", "response"):
+                defs.append({"apiKey": key, "type": ty, "name": f"{stem}Flex{j}{ty.capitalize()}", "validVersions": "0-2",
+                             "flexibleVersions": flexv, "fields": [{"name": "Anchor", "type": "int32", "versions": "0+"},
+                                                                   {"name": "Name", "type": "string", "versions": "1+"}]})
     defs.append({"apiKey": 2100, "type": "response", "name": "SysDefaultedStructsResponse", "validVersions": "0-3", "flexibleVersions": "2+",
                  "fields": [{"name": "ErrorCode", "type": "int16", "versions": "0+"}] + df})
     defs.append({"apiKey": 2100, "type": "request", "name": "SysDefaultedStructsRequest", "validVersions": "0-3", "flexibleVersions": "2+",
